@@ -41,4 +41,16 @@ OBLIGATIONS = [
              "recoverable versions with one seqnum exist; no writecap -> RepairRequiresWritecapError; otherwise downloads exactly the best "
              "version (with privkey), uploads exactly those contents against the same servermap and reports success",
         outside="the publish performed by node.upload (placement of N shares, bad-share checkstrings); Repairer.start's MODE_REPAIR map update"),
+    chx("repair_entry", "C14_h", "h_repair_entry", timeout=T,
+        cases={"quick": [dict(_b(2, 2, 1, 2, 3, [1, 2, 3], dups=False), r0=0, entry=e, _label="2v-r0_0-entry%d" % e) for e in (1, 2)]
+               + [dict(_b(2, 2, 1, 2, 3, [1, 2, 3], dups=False, s0=s), r0=0, entry=0, _label="2v-r0_0-s0_%d-entry0" % s) for s in (1, 2)],
+               "thorough": [dict(_b(2, 3, 1, 2, 3, [1, 2, 3], dups=False, s0=s), entry=e, _label="2v-seq3-s0_%d-entry%d" % (s, e))
+                            for s in (1, 2, 3) for e in (0, 1, 2)]},
+        desc="the way into the repairer on a real MutableFileNode: MutableCheckAndRepairer._maybe_repair(pre-repair results) / "
+             "node.repair(results, force=False|True) -> Repairer.__init__/start -> _got_full_servermap: a healthy file is not repaired; "
+             "the repairer's servermap update is MODE_REPAIR on a fresh map with the caller's monitor; without force (check-and-repair "
+             "never forces) a newer unrecoverable version or competing versions at the newest seqnum end in MustForceRepairError with the "
+             "grid untouched and repair_attempted/unsuccessful recorded; otherwise exactly the best version is republished and the "
+             "check-and-repair results record it",
+        outside="what MODE_REPAIR makes the updater do; the publish itself"),
 ]
